@@ -106,7 +106,8 @@ type E2ETxn struct {
 	SelRes   Selection `json:"selected_for_response"`
 	Events   []Event   `json:"events"`
 	Early    []string  `json:"early_response_of_event,omitempty"` // as Txn.Early
-	Result   string    `json:"result"`                            // none | answered | error
+	AllEarly []string  `json:"early_responses,omitempty"`
+	Result   string    `json:"result"` // none | answered | error
 	ErrText  string    `json:"error,omitempty"`
 	Invoked  []string  `json:"invoked"`
 	Actions  []EAct    `json:"actions"`
@@ -397,6 +398,7 @@ func e2eRun(st *streams.Stream, t *E2ETxn) {
 	}
 	t.Events = events
 	t.Early = earlyPerEvent(len(events), at, acts)
+	t.AllEarly = allEarly(acts)
 	t.Invoked = []string{}
 	for name, n := range after {
 		for i := before[name]; i < n; i++ {
@@ -754,7 +756,7 @@ func e2eMonitor(k *E2ECase, gs []GFlow, t *E2ETxn) []c.Hit {
 				hs = append(hs, h.K)
 			}
 		}
-		if dir, dem, obs, bad := instanceHit(&k.Config, gs, t.Events, t.Early, hs); bad {
+		if dir, dem, obs, bad := instanceHit(&k.Config, gs, t.Events, t.Early, t.AllEarly, hs); bad {
 			hit("e2e:wrong-processor-instance:"+dir, dem, obs)
 			return hits
 		}
